@@ -30,6 +30,10 @@ TEXT = {
          "Rocq proof: exactness of the verifier, totality (no Panic) of the encoder model under verified configurations; boundary-grid correspondence"),
  "C19": ("Theorems C19_roundtrip, C19_empty_document_is_default, C19_omit_*_section, C19_omit_scalars, C19_partitions_default, C19_verify_agrees over a document-level model of the serde schema (container defaults, internally tagged enums, per-field default of partitions, Option<NonZeroUsize>); defaults are the implementation's Default impls dumped into Generated.v each run. Tied by the CFG stream: toml::to_string / toml::from_str against the model on random configurations, random omissions at every level and injected faults.",
          "Rocq proof over a TOML document model of the schema; correspondence with toml::to_string/from_str"),
+ "C15": ("Theorem C15_number_parse_partial (the parser's own number decoder inverts the writer's UTF-8-like coding for every value below 2^36 on a byte-aligned reader). PARTIAL: the whole-tree statement parse(bytes(s)) = s is decided per run: every emitted stream is parsed by the implementation (must consume all input, verify, re-serialise to identical bytes, decode to the input, report the emitted bit count) and by the parser model (PARSE correspondence: verdict and re-serialised bytes on originals and thousands of mutants). Component-level inverse: C01.",
+         "Rocq proof of the number-coding inverse through the parser model; parser model/implementation correspondence; round-trip oracle on emitted streams"),
+ "C16": ("Theorems C16_crc16_detects_bursts / C16_crc8_detects_bursts / C16_crc_is_bitwise: for messages of ANY length, two messages whose difference is confined to a window of 16 (resp. 8) bits have different CRC-16 (CRC-8) remainders - linearity proved algebraically, the two register facts by complete sweeps inside Coq. The parser model has no panicking outcome; agreement of the implementation's verdict (ok/err/panic) with it, and non-acceptance of altered frames with different audio, are decided by the PARSE stream (random positions in quick, every bit position in thorough). PARTIAL for bursts that shift the CRC window.",
+         "Rocq proof: CRC burst-detection theorems (algebra + exhaustive state sweeps); mutation enumeration against the parser with the parser model as reference"),
 }
 NOTE = ("Trusted: Coq 8.16.1 kernel, extraction with ExtrOcamlBasic only, OCaml driver, Rust harness, tools/*.py, "
         "and the hand-written model of the named source files, which is tied to /repo by differential testing "
